@@ -310,6 +310,16 @@ fn cmd_translate(args: &[String]) -> io::Result<()> {
     out.flush()
 }
 
+/// FNV-1a, fixed: equal bytes <=> equal hash across processes (up to collisions).
+fn fixed_hash(data: &[u8]) -> String {
+    let mut h: u64 = 0xcbf29ce484222325;
+    for b in data {
+        h ^= *b as u64;
+        h = h.wrapping_mul(0x100000001b3);
+    }
+    format!("{:016x}:{}", h, data.len())
+}
+
 fn wants(job: &Job, what: &str) -> bool {
     job.want.iter().any(|w| w == what)
 }
@@ -542,6 +552,9 @@ fn run_one(ctx: &BuildContext, preloaded: Option<&UiDocument>, job: &Job, mode: 
                     res["serialize_error"] = json!(e.to_string());
                 }
                 Ok(Ok((pretty, compact, header))) => {
+                    res["ui_hash"] = json!(fixed_hash(&pretty));
+                    res["ui_compact_hash"] = json!(fixed_hash(&compact));
+                    res["header_hash"] = json!(header.as_deref().map(fixed_hash));
                     res["ui_len"] = json!(pretty.len());
                     res["ui_utf8"] = json!(std::str::from_utf8(&pretty).is_ok());
                     res["has_header"] = json!(header.is_some());
